@@ -39,11 +39,14 @@ type c15Req struct {
 	Retry       bool   `json:"retried_after_failure,omitempty"`
 	RetryStatus int    `json:"retry_status,omitempty"`
 	ForceID     uint32 `json:"same_id_as_pending_client_request,omitempty"`
-	id          uint32
-	retryID     uint32
-	retryCh     chan *wire.Msg
-	sentSeq     int64
-	ch          chan *wire.Msg
+	// the request carries exactly this message id (boundary values of the 32-bit id: 0, 2^31-1, 2^31, 2^32-1)
+	Exact   bool   `json:"exact_id,omitempty"`
+	ExactID uint32 `json:"exact_id_value,omitempty"`
+	id      uint32
+	retryID uint32
+	retryCh chan *wire.Msg
+	sentSeq int64
+	ch      chan *wire.Msg
 }
 
 type c15Call struct {
@@ -297,6 +300,17 @@ func c15Batch(r *vc.Run, stype int) {
 			}
 			reqs = append(reqs, q)
 		}
+		// boundary values of the message id on plain scripted requests
+		exact := []uint32{0, 0x7fffffff, 0x80000000, 0xffffffff}
+		for _, q := range reqs {
+			if len(exact) == 0 {
+				break
+			}
+			if q.Scripted && q.Type == stype && q.Err == "" && !q.Hold && !q.Panic && !q.Retry && q.ForceID == 0 {
+				q.Exact, q.ExactID = true, exact[0]
+				exact = exact[1:]
+			}
+		}
 		c15Stream(r, w, ch, stype, si, reqs)
 		if !ch.Alive() {
 			break
@@ -422,7 +436,14 @@ func c15Stream(r *vc.Run, w *world.World, ch *vc.Child, stype, si int, reqs []*c
 				t = wire.TBranchCommit
 			}
 			m := wire.New(t, "xid", q.Xid, "branchId", q.Branch, "branchType", q.Type, "resourceId", q.Resource, "applicationData", q.AppData)
-			id, c, err := w.TC.Request(s, m, q.ForceID)
+			var id uint32
+			var c chan *wire.Msg
+			var err error
+			if q.Exact {
+				id, c, err = w.TC.RequestExact(s, m, q.ExactID)
+			} else {
+				id, c, err = w.TC.Request(s, m, q.ForceID)
+			}
 			if err == nil {
 				q.id, q.ch = id, c
 			}
@@ -540,6 +561,9 @@ func c15Stream(r *vc.Run, w *world.World, ch *vc.Child, stype, si int, reqs []*c
 		}
 		if q.ForceID != 0 {
 			outcome += "+id-of-pending-client-request"
+		}
+		if q.Exact {
+			outcome += fmt.Sprintf("+message-id=%#x", q.ExactID)
 		}
 		rs := resp[q.id]
 		shape := fmt.Sprintf("stype=%s|type=%s|%s|%s|responses=%d", c15TypeName[stype], c15TypeName[q.Type], kind, outcome, len(rs))
